@@ -64,6 +64,7 @@ func runC05(c *Ctx) error {
 		var toks []string
 		last := 0
 		voted := map[string]map[int]bool{}
+		expelled := map[string]map[int]bool{} // key -> nodes whose ballot carried expels
 		// logical record ids in creation order
 		nextID := 0
 		keyID := map[string]int{}  // live key -> id
@@ -109,6 +110,9 @@ func runC05(c *Ctx) error {
 						tok = "c"
 					} else {
 						tok = fmt.Sprintf("v:%d:%s:%d", rank, kind, free[c.Intn(len(free))])
+						if kind == "n" && c.Chance(1, 3) {
+							tok += ":x" // the ballot carries an expel operation
+						}
 					}
 				case k < 8:
 					if last < 17 {
@@ -131,7 +135,20 @@ func runC05(c *Ctx) error {
 					voted[key] = map[int]bool{}
 				}
 				voted[key][node] = true
-				_, _ = box.VoteSignFact(signFact(rank, p[2] == "s", node))
+				sf := signFact(rank, p[2] == "s", node)
+				if len(p) > 4 { // a whole ballot with an expel operation (no embedded voteproof)
+					ef := isaac.NewSuffrageExpelFact(nodes[5].Address(), base.Height(int64(32+rank)), base.Height(int64(40+rank)), "no response")
+					eop := isaac.NewSuffrageExpelOperation(ef)
+					_ = eop.NodeSign(nodes[node].Privatekey(), hNetworkID, nodes[node].Address())
+					if expelled[key] == nil {
+						expelled[key] = map[int]bool{}
+					}
+					expelled[key][node] = true
+					_, _ = box.Vote(isaac.NewINITBallot(nil, sf.(isaac.INITBallotSignFact), []base.SuffrageExpelOperation{eop}))
+					tok = strings.Join(p[:4], ":") // the model does not distinguish
+				} else {
+					_, _ = box.VoteSignFact(sf)
+				}
 			case "l":
 				var q int
 				fmt.Sscan(p[1], &q)
@@ -207,6 +224,11 @@ func runC05(c *Ctx) error {
 				sort.Ints(want)
 				if own == rank && fmt.Sprint(vs) != fmt.Sprint(want) {
 					viol("C05:votes-leak-between-stage-points", fmt.Sprintf("record of %s holds votes of %v, voted there: %v", key, vs, want))
+				}
+				for _, a := range r.Expels {
+					if own == rank && !expelled[key][nodeIdx[a]] {
+						viol("C05:votes-leak-between-stage-points", fmt.Sprintf("the record of %s holds expels of node %d, whose ballot for that stage point carried none", key, nodeIdx[a]))
+					}
 				}
 				lines = append(lines, fmt.Sprintf("%d%s=r%d@%d:%s", rank, kind, id, own, strings.Join(vt, ".")))
 			}
